@@ -90,7 +90,8 @@ CLAIMS = {
          'Not covered: that sums/products of encoded polynomials decode slot-wise (needs the NTT to be the evaluation map), the link between Galois elements and row rotation / column swap (same), values >= t given to encode (not reduced by the code; outside the property\'s domain Z_t).', '5 C11'),
  'C12': ('The integer entry point only: CKKSEncoder::encode_internal_i64_single is proved, for every i64 (negative values and values larger than a single prime included), every level and every chain, to produce the constant polynomial whose every coefficient of RNS component j is value mod q_j '
          '(so all components hold the residues of ONE integer), at scale 1 and on the requested level, and to refuse unknown levels, non-CKKS contexts and values whose bit count + 2 reaches the total modulus size. '
-         'Not covered (the larger part of the property): every floating-point path (vector / single real / single complex / coefficient list, the three magnitude branches, FFT and root tables, decode) - Verus has no model of f64 arithmetic, rounding or casts, '
+         'Coefficient-list encoder (unit c12_f64, a fragment of encode_internal_f64_polynomial from the destination reset to the refusal of oversized inputs, over an ASSUMED order/rounding model of f64 in which values are opaque): the destination is resized for the level and zero everywhere whatever it held, an empty list and inputs whose SCALED magnitude reaches the total modulus size are refused, and the bit count that selects the 64 / 128 / multi-word path bounds every rounded scaled coefficient that path converts (this obligation exposed defect D12, repaired). '
+         'Not covered (the larger part of the property): the floating-point arithmetic itself on every path (vector / single real / single complex, the conversion loops of the three magnitude branches, FFT and root tables, decode) - Verus has no model of f64 arithmetic, rounding or casts, '
          'so "rounded scaled canonical embedding up to double-precision error" cannot be stated as a contract; those paths are NOT decided.', '5 C12'),
  'C13': ('The helper functions parameter generation and identification are built from, each against an integer specification: util::get_primes returns exactly `count` moduli, strictly decreasing (hence distinct), each of exactly bit_size bits, congruent to 1 modulo the factor (2N) and accepted by the primality test, '
          'never underflows, terminates, and refuses (panics) rather than returning a short list; util::is_prime never accepts a value below 2 or a proper multiple of 2,3,5,7,11,13 and terminates (its Miller-Rabin rounds use random bases, so "accepted => prime" is probabilistic and is NOT a contract); '
